@@ -91,16 +91,18 @@ func (d *wrappedSlidingWindowDetector) Check(seq uint64) (func() bool, bool) {
 		// Exceeded upper limit.
 		return nop, false
 	}
+	// The window is positioned by the first accepted packet; Check itself
+	// must not change the state of the detector.
+	latestSeq := d.latestSeq
 	if !d.init {
 		if seq != 0 {
-			d.latestSeq = seq - 1
+			latestSeq = seq - 1
 		} else {
-			d.latestSeq = d.maxSeq
+			latestSeq = d.maxSeq
 		}
-		d.init = true
 	}
 
-	diff := int64(d.latestSeq) - int64(seq) //nolint:gosec // GG115 TODO check
+	diff := int64(latestSeq) - int64(seq) //nolint:gosec // GG115 TODO check
 	// Wrap the number.
 	if diff > int64(d.maxSeq)/2 { //nolint:gosec // GG115 TODO check
 		diff -= int64(d.maxSeq + 1) //nolint:gosec // GG115 TODO check
@@ -120,6 +122,10 @@ func (d *wrappedSlidingWindowDetector) Check(seq uint64) (func() bool, bool) {
 	}
 
 	return func() bool {
+		if !d.init {
+			d.latestSeq = latestSeq
+			d.init = true
+		}
 		latest := false
 		if diff < 0 {
 			// Update the head of the window.
